@@ -15,8 +15,8 @@
    [fx] selects the stop rule of EngineBase.add_to_path: true = the rule as it is now
    (`if path.length == path.maxlen and not success`), false = the rule before the repair of
    lead L11 (= EngineM.add_to_path: a crossing frame that is also the maxlen-th is a failure).
-   [fixL2] / [fixL3] select the repaired (true) or the original (false) code for the two
-   recorded leads: L2 = lammps.py pairs a frame with `box_trajectory.pop()` (the LAST box
+   [fixL2] / [fixL3] / [fixL14] select the repaired (true) or the original (false) code for
+   the recorded leads (L14: see Section Gmx): L2 = lammps.py pairs a frame with `box_trajectory.pop()` (the LAST box
    read in this poll) instead of `pop(0)`; L3 = gromacs.py negates the velocities for
    reverse=True before calling calculate_order, which negates them again for vel_rev.
    No proofs here. *)
@@ -236,6 +236,11 @@ End Cp2k.
    [final_size] bytes. *)
 Section Gmx.
 Variable fixL3 : bool.
+(* L14: the inner `while data is None` loop of get_gromacs_frames never looks at the process;
+   a program that ends after writing a frame header but not its data makes it wait forever.
+   fixL14 = true: the repaired loop polls the program when the data is not there (check_poll
+   raises on a non-zero code) and stops reading if the frame can no longer be completed. *)
+Variable fixL14 : bool.
 Variables hsz dsz head0 : nat.
 Variable final_size : nat.
 
@@ -309,7 +314,7 @@ Fixpoint gmx_epochs (eps : list nat) (rem : list conf) (ph : gphase) (br hs i : 
   | [] =>
       match ph with
       | GOuter => gmx_exit rem br i p
-      | GInner =>   (* the inner wait loop never looks at the process *)
+      | GInner =>   (* the inner wait loop: original code never looks at the process *)
           if (br + dsz <=? final_size)%nat then
             match rem with
             | [] => Hang p
@@ -320,6 +325,7 @@ Fixpoint gmx_epochs (eps : list nat) (rem : list conf) (ph : gphase) (br hs i : 
                 | Some (p1, _, false) => gmx_exit rem' (br + dsz) (S i) p1
                 end
             end
+          else if fixL14 then fell_through p
           else Hang p
       end
   | size :: rest =>
